@@ -174,6 +174,36 @@ def run_mixed(ctx, byte):
                 ctx.fail({"kind": "mixed", "dict": [repr(first), repr(second)]}, f"polynomial({{(0,): {first!r}, (1,): {second!r}}}) holds {got}", ["mixed", "dict", "value"])
 
 
+def run_inferred_dtype(ctx, byte):
+    """no dtype requested: the stored dtype is the promotion of all coefficient dtypes, whatever the retain flags and
+    whichever coefficients are all zero - compared with the Lean model (`DT.inferDtype`, op inferdtype)"""
+    rng = ctx.rng("inferred")
+    cases, drv = [], []
+    for _ in range(120 if ctx.quick else 1500):
+        k = int(rng.integers(1, 4))
+        dts = [DTYPES[int(rng.integers(len(DTYPES)))] for _ in range(k)]
+        zero = [bool(rng.random() < .4) for _ in range(k)]
+        cases.append((dts, zero))
+        drv.append({"id": len(drv), "op": "inferdtype", "cols": [[d, z] for d, z in zip(dts, zero)]})
+    with warnings.catch_warnings():
+        warnings.simplefilter("ignore")
+        for (dts, zero), ans in zip(cases, run_driver(drv)):
+            cols = [numpy.zeros(3, dtype=d) if z else data(d) for d, z in zip(dts, zero)]
+            expos = [[j] for j in range(len(dts))]
+            for rc in (False, True):
+                case = {"kind": "inferred", "dtypes": dts, "zero": zero, "retain_coefficients": rc}
+                ctx.evaluations += 1
+                ctx.count("inferred-dtype")
+                try:
+                    p = numpoly.polynomial_from_attributes(expos, cols, retain_coefficients=rc)
+                except Exception as err:  # noqa: BLE001
+                    ctx.fail(case, f"polynomial_from_attributes with dtypes {dts} raised {type(err).__name__}: {str(err)[:100]}", ["inferred", "raises"])
+                    continue
+                if str(p.dtype) != ans["value"] or poisoned(p, byte):
+                    ctx.fail(case, f"coefficients of dtypes {dts} (all-zero: {zero}) under retain_coefficients={rc}: stored dtype {p.dtype}, "
+                                   f"the promotion of all of them is {ans['value']}", ["inferred", "dtype"])
+
+
 def run_weak_scalars(ctx, byte):
     """narrow numpy scalars / arrays next to plain Python numbers the narrow type cannot hold: the Python number counts
     with its default numpy type (as in numpy.array([...])), so nothing wraps or is rounded"""
@@ -404,6 +434,7 @@ def run(ctx):
         with poison(byte):
             run_constructors(ctx, byte)
             run_mixed(ctx, byte)
+            run_inferred_dtype(ctx, byte)
             run_weak_scalars(ctx, byte)
             run_arithmetic(ctx, byte)
             run_shape_functions(ctx, byte)
@@ -422,7 +453,7 @@ def search(ctx):
 def replay(ctx, case):
     n = len(ctx.failures)
     with poison(0xA5):
-        {"constructor": run_constructors, "mixed": run_mixed, "weak": run_weak_scalars, "arith": run_arithmetic, "shape": run_shape_functions,
+        {"constructor": run_constructors, "mixed": run_mixed, "weak": run_weak_scalars, "inferred": run_inferred_dtype, "arith": run_arithmetic, "shape": run_shape_functions,
          "empty": run_empty_results, "size0": run_empty_results}[case["kind"]](ctx, 0xA5)
     keys = [k for k in ("constructor", "src", "req", "op", "a", "b", "what", "dtype") if k in case]
     hits = [f for f in ctx.failures[n:] if all(f["case"].get(k) == case[k] for k in keys)]
